@@ -992,7 +992,9 @@ def origins(f, o, depth=14, _seen=None):
     rest = place[1:]
     for d in ds:
         if d[0] == "call":
-            out.add("call:%s(..)%s" % (callee_name(d[2]).rsplit("::", 1)[-1], "".join("@" + e[1] if isinstance(e, list) and e[0] == "d" else "" for e in rest)))
+            inner = ",".join(describe(f, a, depth - 3) for a in d[3]) if depth > 3 else "…"
+            out.add("call:%s(%s)%s" % (callee_name(d[2]).rsplit("::", 1)[-1], inner,
+                                       "".join("@" + e[1] if isinstance(e, list) and e[0] == "d" else "" for e in rest)))
             continue
         rv = d[3]
         if rv[0] == "agg":
